@@ -709,6 +709,12 @@ def gen_top(rng, pspec, cspec):
             cls = rng.choice(["inside", "inside", "on_lo", "on_hi", "below", "above", "below6", "above6", "nan",
                               "margin_lo", "pinf"])
             x = nz(value_for(rng, sp["mins"][i], sp["maxs"][i], cls))
+            if rng.random() < 0.3:
+                # values at and next to the points where a transform formula changes branch (exponents 0 and 2,
+                # the 1e-10 / 1e-8 / 2e-5 switches): a read-only call must not "snap" them in place
+                b = rng.choice([0.0, 1e-9, -1e-9, 1e-10, 1.1e-10, 1e-8, 2.0, 2.00001, 1.999995, 2.0 + 1e-9, 1.0])
+                if sp["mins"][i] <= b <= sp["maxs"][i]:
+                    x = b
         else:
             nm, x = rng.choice(["zz", "nope"]), rng.choice([0.5, NAN])
         return (rng.choice(["ti", "ta"]), nm, x)
